@@ -757,6 +757,30 @@ func (w *World) ConnDelete(t *rapid.T) vconn.Delivery {
 	return w.deliver(imap.NewMessagesDeleted(id))
 }
 
+// ConnCreateDelete delivers a MessagesCreated for a new message and removes it again at once (MessageDeleted, or a
+// label change to no mailbox): sessions with that mailbox selected get an addition and its removal back to back.
+func (w *World) ConnCreateDelete(t *rapid.T, box string) (vconn.Delivery, vconn.Delivery, string) {
+	d1, marker := w.ConnCreate(t, box)
+	id := w.Remote[marker]
+
+	w.Label("conn:create+delete")
+
+	if rapid.Bool().Draw(t, "byLabels") {
+		w.U.Conn.Lock(func() {
+			if m := w.U.Conn.Messages[id]; m != nil {
+				m.Boxes = map[imap.MailboxID]bool{}
+			}
+		})
+
+		return d1, w.deliver(imap.NewMessageMailboxesUpdated(id, nil, imap.NewFlagSet())), marker
+	}
+
+	w.U.Conn.Lock(func() { delete(w.U.Conn.Messages, id) })
+	delete(w.Remote, marker)
+
+	return d1, w.deliver(imap.NewMessagesDeleted(id)), marker
+}
+
 // Fresh returns the authoritative content of a mailbox (markers resolved) or ok=false.
 type FreshMsg struct {
 	bed.FreshMsg
